@@ -457,7 +457,12 @@ def _run_levy(case, log, probes):
             done += 1
         probes["levy_merged_mean"] += fold_probes["levy_fold_multi"]
         forcer.force = None
-        nodes = [(a, b) for (_, a, b) in bm.dump_tree(built.interval) if a < b]
+        try:
+            nodes = [(a, b) for (_, a, b) in bm.dump_tree(built.interval) if a < b]
+        except Exception:  # noqa  (tree dump unavailable or in another format: fall back to the queried intervals)
+            probes["tree_dump_unavailable"] = 1
+            nodes = [(built.dom[0], built.dom[1])] + [(xf(o["ta"]), xf(o["tb"])) for o in case["ops"]
+                                                      if not o.get("og") and xf(o["ta"]) < xf(o["tb"])]
         seen_seed = {}
         foster = cfg["levy"] == "foster"
         probes["levy_foster" if foster else "levy_davie"] += 1
